@@ -477,7 +477,40 @@ def run(ctx):
     finally:
         Plan._call, Plan.lit, rp.run_function_on_graph = orig_call, orig_lit, orig_rfg
     sentinel(ctx)
+    one_shot(ctx, uberjob)
     timing(ctx, uberjob)
+
+
+def one_shot(ctx, uberjob):
+    """unpack yields exactly the n items of ONE iteration: values that can be iterated only once (a generator returned by a
+    call, map / zip / iterator objects, also given directly) and values whose iterations are observable"""
+    class Counting:
+        def __init__(self):
+            self.iterations = 0
+
+        def __iter__(self):
+            self.iterations += 1
+            return iter((self.iterations * 10 + 1, self.iterations * 10 + 2, self.iterations * 10 + 3))
+
+    def gen():
+        yield from ("a", "b", "c")
+    makers = {"generator": gen, "map": lambda: map(str.upper, "xyz"), "zip": lambda: zip("pq", "rs", "tu") and zip("abc", "def"),
+              "iter": lambda: iter([7, 8, 9]), "counting": Counting}
+    expect = {"generator": ("a", "b", "c"), "map": ("X", "Y", "Z"), "zip": (("a", "d"), ("b", "e"), ("c", "f")), "iter": (7, 8, 9), "counting": (11, 12, 13)}
+    for name, mk in makers.items():
+        for how in ("from-call", "direct"):
+            for workers in (1, 3):
+                plan = uberjob.Plan()
+                src = plan.call(mk) if how == "from-call" else mk()
+                items = plan.unpack(src, 3)
+                ctx.case(("one-shot", name, how, workers))
+                try:
+                    got = uberjob.run(plan, output=tuple(items), max_workers=workers, progress=None)
+                except BaseException as e:      # noqa
+                    got = "raised %s: %r" % (type(e).__name__, getattr(e, "__cause__", None))
+                if got != expect[name]:
+                    ctx.fail("unpack:one-shot", "unpack(<%s %s>, 3) gave %r, one iteration yields %r" % (name, how, got, expect[name]),
+                             {"iterable": name, "how": how, "max_workers": workers})
 
 
 def timing(ctx, uberjob):
